@@ -137,6 +137,27 @@ async def execute(net, hyg, plan):
                                  "msg": f"{where}: transport closed at {got - 1000:.4f}, bound was {expected - 1000:.4f}"})
             elif not due:
                 mon["no_release_without_timeout"] += 1
+            # black-box upper bounds, independent of the StreamIO instrumentation (a write or read that bypasses the
+            # instrumented methods must still be bounded)
+            if not quit_sent:
+                for tr in net.transports:
+                    if tr.side != "accept" or tr.conn.client.state != "open":
+                        continue
+                    mon["blackbox_bounds"] = mon.get("blackbox_bounds", 0) + 1
+                    chan = "control" if tr.conn.port == 2121 else "data"
+                    if cfg["sock"] and tr.write_paused_at is not None:
+                        limit_t = tr.write_paused_at + cfg["sock"] + EPS
+                        if tr.close_called_at is None or tr.close_called_at > limit_t:
+                            viol.append({"key": f"not-released:{chan}-write-blackbox",
+                                         "msg": f"{where}: the {chan} connection could not be written since {tr.write_paused_at - 1000:.4f} "
+                                                f"(peer not reading), socket_timeout {cfg['sock']}: closed at "
+                                                f"{tr.close_called_at and round(tr.close_called_at - 1000, 4)}"})
+                    if chan == "control" and cfg["idle"]:
+                        last = tr.last_data_in_at or tr.created_at
+                        if tr.close_called_at is None or tr.close_called_at > last + cfg["idle"] + EPS:
+                            viol.append({"key": "not-released:control-read-blackbox",
+                                         "msg": f"{where}: last control bytes arrived at {last - 1000:.4f}, idle_timeout {cfg['idle']}: "
+                                                f"closed at {tr.close_called_at and round(tr.close_called_at - 1000, 4)}"})
             d.finish_peers()
         elif kind == "noconnect":
             s = Session(net, 2121)
